@@ -146,8 +146,12 @@ func c07Text(c *Ctx) {
 			rt = "same"
 		}
 		c.Count("esc_roundtrip/" + rt)
+		sc := class
+		if attr && mode == 2 && validXMLChars(s) && strings.Contains(s, "]]>") {
+			sc = "cdata-end-in-attribute" // known finding K4
+		}
 		c.Add(ge, &Case{
-			Key:   map[string]string{"op": "escape+read", "mode": fmt.Sprint(mode), "attr": fmt.Sprint(attr), "class": class},
+			Key:   map[string]string{"op": "escape+read", "mode": fmt.Sprint(mode), "attr": fmt.Sprint(attr), "class": class, "string_class": sc},
 			Input: map[string]any{"string": s, "mode": mode, "attribute": attr},
 			Obs:   map[string]any{"written": out, "read_back": back},
 			Term: fmt.Sprintf("{| xe_mode := %d; xe_attr := %s; xe_in := %s; xe_out := %s; xe_back := %s |}",
